@@ -19,7 +19,7 @@ import os
 import re
 import unicodedata
 
-from ..core import (AnalysisError, VERIF_DIR, short, unparse, iter_own, call_name, call_recv, kwarg, parents,
+from ..core import (AnalysisError, VERIF_DIR, short, unparse, iter_own, call_name, call_recv, kwarg, parents, enclosing_stmt,
                     is_self_attr, const_value)
 from .. import tables
 from . import c13
@@ -702,6 +702,58 @@ def run(ctx):
                    'the default tables declare the specials sequence %r, all of whose characters the encoder copies through '
                    'unchanged: ordinary text containing %r is encoded as itself and converted back to another character, '
                    'and it is not one of the documented ASCII ligatures' % (sq_, sq_), construct='walker specials %r' % sq_)
+
+    # ---- R08k: module-level tables of latex2text are read-only at run time; R08l (C03 R03g)
+    ctx.rule('R08k', 'no function of latex2text changes a module-level table in place, directly or through a local that '
+                     'aliases the table or one of its entries (`d = PRESETS[k]; d.update(..)`): every converter shares them', 1)
+    from . import c09 as _c09k
+    for mod_ in sorted(repo.modules.values(), key=lambda m_: m_.name):
+        if not mod_.name.startswith('pylatexenc.latex2text'):
+            continue
+        tabs_ = {st_.targets[0].id for st_ in mod_.tree.body if isinstance(st_, ast.Assign) and len(st_.targets) == 1
+                 and isinstance(st_.targets[0], ast.Name) and (isinstance(st_.value, (ast.Dict, ast.List, ast.Set)) or (
+                     isinstance(st_.value, ast.Call) and isinstance(st_.value.func, ast.Name)
+                     and st_.value.func.id in ('dict', 'list', 'set')))}
+        n_tb = 0
+        # helpers that only run while the module is being imported (called from module-level
+        # statements, from no function) build the tables; they are not "run time"
+        called_in_fn = {call_name(c_) for g_ in mod_.functions.values() for c_ in iter_own(g_) if isinstance(c_, ast.Call)}
+        import_time = {call_name(c_) for st_ in mod_.tree.body if not isinstance(st_, (ast.FunctionDef, ast.ClassDef))
+                       for c_ in ast.walk(st_) if isinstance(c_, ast.Call) and isinstance(c_.func, ast.Name)} - called_in_fn
+        for q_, f_ in sorted(mod_.functions.items()):
+            if q_ in import_time:
+                continue
+            alias_ = {}
+            for st_ in iter_own(f_):
+                if isinstance(st_, ast.Assign) and len(st_.targets) == 1 and isinstance(st_.targets[0], ast.Name):
+                    v_ = st_.value
+                    root_ = v_
+                    while isinstance(root_, ast.Subscript):
+                        root_ = root_.value
+                    if isinstance(root_, ast.Name) and root_.id in tabs_ and not isinstance(v_, ast.Call):
+                        alias_[st_.targets[0].id] = unparse(v_)
+            for x_ in iter_own(f_):
+                tgt_ = None
+                if isinstance(x_, ast.Call) and call_name(x_) in _c09k.MUTATORS and isinstance(call_recv(x_), ast.Name):
+                    tgt_ = call_recv(x_).id
+                elif isinstance(x_, ast.Subscript) and isinstance(x_.ctx, (ast.Store, ast.Del)) and isinstance(x_.value, ast.Name):
+                    tgt_ = x_.value.id
+                if tgt_ is None:
+                    continue
+                local_names = {a_.arg for a_ in f_.args.args}
+                if tgt_ in alias_ or (tgt_ in tabs_ and tgt_ not in local_names and not any(
+                        isinstance(s2, ast.Assign) and any(isinstance(t2, ast.Name) and t2.id == tgt_ for t2 in s2.targets)
+                        for s2 in iter_own(f_))):
+                    n_tb += 1
+                    ctx.refuted('R08k', mod_, enclosing_stmt(x_) or x_, '%s changes %s in place, which is %s, a module-level '
+                                'table shared by every converter: after one converter was built with a custom dictionary '
+                                'all default converters use the changed policy (whitespace between `{\\\'e} {\\\'e}` is '
+                                'dropped and the round trip returns another string)'
+                                % (q_, tgt_, alias_.get(tgt_, 'the table itself')), construct='%s: in-place change of %s' % (q_, tgt_))
+        ctx.holds('R08k', mod_, None, '%d module-level table(s) %s, none changed in place' % (len(tabs_), sorted(tabs_)[:6]),
+                  construct='%s: table mutation scan' % mod_.relpath, trivial=True)
+    ctx.rule('R08l', 'accented characters are composed with NFC from the base letter and the combining mark (C03 R03g)', 1)
+    _core.run_proxied(ctx, _c03, 'R08l', ('R03g',))
 
     return 'other', (
         'Evaluates the default encoder table against the evaluated default walker and latex2text '
